@@ -17,7 +17,7 @@ tvars == <<t, l, fs>>
 
 TInit == /\ t \in 1..N /\ l = 1 /\ fs = Internal(Traces[t].fs)
 
-EState(e) == Shows(e.obs, fs) /\ ShowsN(e.nobs, fs) /\ UNCHANGED fs
+EState(e) == Shows(e.obs, fs) /\ ShowsN(e.nobs, fs) /\ ShowsL(e.obs.ldeep, e.lobs, fs) /\ UNCHANGED fs
 
 (* result i of the call against item i *)
 ItemOK(r, it, exp, k) ==
@@ -37,7 +37,7 @@ NormalOpen(e) ==
   /\ e.err = "" /\ Len(e.res) = Len(e.items)
   /\ LET x == WalkOpen(e) IN
        /\ x.ok
-       /\ Shows(e.post, x.fs) /\ ShowsN(e.npost, x.fs) /\ fs' = x.fs
+       /\ Shows(e.post, x.fs) /\ ShowsN(e.npost, x.fs) /\ ShowsL(e.post.ldeep, e.lpost, x.fs) /\ fs' = x.fs
        /\ (x.drift => TLCSet(N + t, 1))
 EOpen(e) ==
   /\ ~e.blocked                                     \* never blocks (FIFO, socket, device)
@@ -56,7 +56,7 @@ ESymlink(e) ==
        ELSE LET x == LinkBatch(fs, e.links) IN
             /\ e.err = "" /\ Len(e.errs) = Len(e.links)
             /\ \A i \in DOMAIN e.links : (e.errs[i] = "") = (x.res[i] = "ok")
-            /\ Shows(e.post, x.fs) /\ fs' = x.fs
+            /\ Shows(e.post, x.fs) /\ ShowsL(e.post.ldeep, e.lpost, x.fs) /\ fs' = x.fs   \* a link exists iff its result is nil
 
 EDelete(e) ==
   LET x == DeleteOne(fs, e.p) IN
